@@ -65,7 +65,7 @@ def run_case(ctx, loop, p, reply, req, witness_tag=None):
     ctx.dist("mode:" + p["mode"])
     ctx.dist("buffering:" + ("unbuffered" if p["bufsize"] <= 0 else "line" if p["bufsize"] == 1 else "sized"))
     ctx.dist("pipelined" if p["pipelined"] else "not-pipelined")
-    ctx.dist("generator:disciplined" if p.get("disciplined") else "generator:hostile")
+    ctx.dist("generator:" + (p.get("targeted") or ("disciplined" if p.get("disciplined") else "hostile")))
     ctx.dist("server-file:" + ("unbuffered" if p.get("srv_unbuffered") else "buffered(StubSFTPServer default)"))
     if reply is None:
         return set()
@@ -119,6 +119,8 @@ def run_case(ctx, loop, p, reply, req, witness_tag=None):
             fired.update(ts.split(","))
     if not (fired - EXCLUSION_TAGS):
         ctx.dist("no-trigger-fired(covered by refines_partial)")
+        if p.get("targeted"):
+            ctx.dist("no-trigger-fired:" + p["targeted"])
     if div is None:
         return set()
     sticky = set()
@@ -256,7 +258,8 @@ META = {
               "byte-exact correspondence of the model with a real SFTPClient/SFTPFile against a real SFTPServer over "
               "a loopback (return values, exception kinds, final file bytes, _pos/_realpos/_rbuffer/_wbuffer; modes "
               "r r+ w w+ a a+ x wx w+x, bufsize -1..65536, pipelined or not, MAX_REQUEST_SIZE patched down to force "
-              "request splitting; half the programs disciplined = inside the theorem's hypothesis, half hostile), "
+              "request splitting; 35% disciplined and 20% targeted \"seek around the read-ahead window with a pending write\" programs "
+              "= inside the theorem's hypothesis, 45% hostile), "
               "validation of the PyFile spec against real local files, and the oracle real-SFTPFile-vs-real-local-"
               "file; a divergence is known iff the model reproduces the run and fired a listed tag at or before it, "
               "anything else is a VIOLATION; every witness is replayed on the real code."),
